@@ -64,6 +64,10 @@ func CatalogueForms() []Form {
 		c("local_const", "const lc uint64 = 3\nr = x + lc"), c("local_const_untyped", "const lc = 3\nr = x + lc"),
 		cd("package_const_untyped", "const PCU = 10\n", "r = x + PCU"),
 		cd("package_const_iota", "const (\n\tIotaA uint64 = iota\n\tIotaB\n)\n", "r = IotaB + x"),
+		cd("package_const_iota_all", "const (\n\tIoA uint64 = iota\n\tIoB\n\tIoC\n)\n", "r = IoA*100 + IoB*10 + IoC + x"),
+		cd("package_const_iota_expr", "const (\n\tIeA uint64 = 1 << iota\n\tIeB\n\tIeC\n)\n", "r = IeA*100 + IeB*10 + IeC + x"),
+		cd("package_const_iota_skip", "const (\n\tIsA uint64 = iota + 5\n\t_\n\tIsC\n)\n", "r = IsA*100 + IsC + x"),
+		cd("package_const_implicit_repeat", "const (\n\tIrA uint64 = 7\n\tIrB\n)\n", "r = IrA*10 + IrB + x"),
 		c("local_type", "type LT struct {\n\tu uint64\n}\nq := LT{u: x}\nr = q.u"),
 		c("empty_stmt", ";\nr = x"),
 		// control-flow shapes
@@ -83,6 +87,24 @@ func CatalogueForms() []Form {
 		c("call_deref_func", "fv := mkAdder(3)\npf := &fv\nr = (*pf)(x)"),
 		c("func_typed_var", "var fv func(uint64) uint64 = mkAdder(1)\nr = fv(x)"),
 		c("method_value", "mv := sp.addTo\nr = mv(x)"), c("method_expr", "me := (*S).addTo\nr = me(sp, x)"),
+		// a method value binds its receiver when it is evaluated, not when it is called
+		c("method_value_ptr_retarget", "var q *S = sp\nmv := q.addTo\nq = &S{g: 50}\nr = mv(x) + q.g"),
+		c("method_value_val_snapshot", "mv := sv.sum\nsv.f = 77\nr = mv() + sv.f"),
+		c("method_value_val_of_deref", "mv := sp.sum\nsp.f = 77\nr = mv()"),
+		c("method_value_called_twice", "mv := sp.addTo\nr = mv(1)\nr = r*10 + mv(2)"),
+		c("method_value_as_arg", "r = apply(sp.addTo, x)"),
+		// fields of function type are fields, not methods
+		c("func_field_value", "fs := FS{fn: mkAdder(1)}\ng := fs.fn\nr = g(x)"),
+		c("func_field_call", "fs := FS{fn: mkAdder(1)}\nr = fs.fn(x)"),
+		c("func_field_ptr_value", "fs := &FS{fn: mkAdder(2)}\ng := fs.fn\nr = g(x)"),
+		c("func_field_store", "fs := &FS{}\nfs.fn = mkAdder(3)\ng := fs.fn\nr = g(x)"),
+		// the copy idioms: the result must not alias its source
+		c("append_to_empty_lit_spread", "us := append([]uint64{}, xs...)\nus[0] = 99\nr = xs[0] + us[0]"),
+		c("append_to_nil_conv_spread", "us := append([]uint64(nil), xs...)\nus[0] = 99\nr = xs[0] + us[0]"),
+		c("append_to_nil_var_spread", "var e []uint64\nus := append(e, xs...)\nus[0] = 99\nr = xs[0] + us[0]"),
+		c("append_to_nil_spread", "var us []uint64\nus = append(us, xs...)\nus[1] = 98\nr = xs[1] + us[1]"),
+		c("append_to_empty_make_spread", "us := append(make([]uint64, 0), xs...)\nus[0] = 99\nr = xs[0] + us[0]"),
+		c("append_one_to_nil", "var us []uint64\nus = append(us, x)\nr = us[0] + uint64(len(us))"),
 		c("type_assert", "var ifc interface{} = x\nr = ifc.(uint64)"),
 		c("type_assert_commaok", "var ifc interface{} = x\nv, ok := ifc.(uint64)\nr = v\nrb = ok"),
 		c("type_switch", "var ifc interface{} = x\nswitch v := ifc.(type) {\ncase uint64:\n\tr = v\n}"),
@@ -141,7 +163,7 @@ func CatalogueForms() []Form {
 // controlShapeForms: every jump (break, continue, return) x the branch of an
 // if statement it sits in (then, else, else-if with and without a final else,
 // nested if, both branches) x loop kind (three-clause, condition-only, range,
-// none for return) x whether statements follow the if.  Whatever the
+// condition-less with its exit nested in an if, none for return) x whether statements follow the if.  Whatever the
 // translator accepts has to behave like Go.
 func controlShapeForms() []Form {
 	type loop struct{ id, tmpl, cv string }
@@ -149,6 +171,7 @@ func controlShapeForms() []Form {
 		{"for3", "for ci := uint64(0); ci < 4; ci++ {\n$\n}", "ci"},
 		{"forcond", "var ci uint64 = 0\nfor ci < 4 {\n\tci = ci + 1\n$\n}", "ci"},
 		{"range", "for _, cv := range ts {\n$\n}", "cv.b"},
+		{"forever", "var ci uint64 = 0\nfor {\n\tci = ci + 1\n\tif ci > 3 {\n\t\tbreak\n\t}\n$\n}", "ci"},
 		{"noloop", "$", "x"},
 	}
 	shapes := [][2]string{
